@@ -33,12 +33,19 @@ def expr(cases, jobs):
                 continue
             obs, ov, re_ = dec_obs(rv["rt" + py_e])
             parts.append("roundtrip_case %s %s %s %s %s %s %s" % (coq_e, tt, vv, codec.hex_coq(rv[py_e]), obs, ov, re_))
+        # the predicate the greedy-tail theorem is stated with must be the spec's notion of an aligned tail on this value
+        parts.append("tail_defs_case %s %s" % (tt, vv))
         return "(%d, %d, %s)" % (i, vi, " ++ ".join(parts))
     return f
 
 
 def on_bad(chk, d, r, i, vi):
-    if 97 in r or 93 in r:
+    if len(r) == 3 and r[0] == 99 and r[1] in (0, 1) and r[2] in (0, 1):
+        d["kind"] = ("definition agreement broken: tail_clean (hypothesis of theorem C02_roundtrip_greedy_tail_aligned) and the spec's "
+                     "greedy_tail_aligned differ on this value (result = [99; tail_clean; greedy_tail_aligned])")
+        d["result"] = r[:12]
+        chk.violation("taildefs-%d-%d" % (i, vi), d, "no-failing-input-found")
+    elif 97 in r or 93 in r:
         d["kind"] = "decode(encode(v)) is not (v, whole input), or re-encoding differs"
         d["result"] = r[:12]
         chk.violation("roundtrip-%d-%d" % (i, vi), d)
